@@ -1,9 +1,197 @@
 import Driver.Proto
+import PolyVerif.Model.Stl
 
+/-!
+  Driver for C07 (binary STL).  Line protocol:
+
+    byte strings   lower-case hex, the empty string is `-`
+    record         12 tokens of 8 hex digits (float32 bit patterns: normal, v1, v2, v3) + 4 hex digits attribute
+    mesh           nidx idx… (npos|-) pos… (nnrm|-) nrm…   float64 as 16 hex digits, three per vector;
+                   every float64 NaN is canonical 7ff8000000000000 (both sides), float32 NaN produced by
+                   arithmetic is canonical 7fc00000 (the harness rewrites WriteMesh's NaN words)
+
+    c07.write <hdr> n rec…            → bytes                          (stl.Write)
+    c07.read <bytes>                  → ok <hdr> n rec… | err          (stl.Read)
+    c07.writemesh <mesh>              → ok <hdr> n rec… | panic        (stl.WriteMesh, decoded by the model decoder)
+    c07.readmesh <bytes>              → ok <mesh> | err                (stl.ReadMesh)
+    c07.holds.size n <bytes>          → |bytes| = 84 + 50 n            (stl_length / stl_mesh_roundtrip)
+    c07.holds.rt <hdr> n rec… <hdr> n rec…  → y = what the theorem says Read(Write x) is; y = x if x has no
+                                        signalling NaN                  (stl_roundtrip, stl_roundtrip_exact)
+    c07.holds.reencode <in> <out>     → out reads back to the same records as in, same length, and out = in
+                                        when in has no signalling NaN   (stl_reencode)
+    c07.holds.roundtrip <mesh> <mesh> → RoundTrips m r                 (stl_mesh_roundtrip)
+-/
 namespace Driver.C07
+open PolyVerif PolyVerif.Stl
 
-/-- one request -> one answer line; `none` = unknown op / malformed -/
-def handle (_op : String) (_args : List String) : Option String := none
+def bytesOfHex (s : String) : Option (List Byte) :=
+  if s == "-" then some [] else
+  let rec go : List Char → List Byte → Option (List Byte)
+    | [], acc => some acc.reverse
+    | [_], _ => none
+    | a :: b :: r, acc => do
+      let x ← hexDigit a; let y ← hexDigit b
+      go r (BitVec.ofNat 8 (x * 16 + y) :: acc)
+  go s.toList []
+
+def hexOfBytes (bs : List Byte) : String :=
+  if bs.isEmpty then "-" else
+  String.ofList (bs.foldr (fun b acc => Nat.digitChar (b.toNat / 16) :: Nat.digitChar (b.toNat % 16) :: acc) [])
+
+def w32? (s : String) : Option W32 := if s.length ≠ 8 then none else (parseHex s).map (BitVec.ofNat 32)
+def w16? (s : String) : Option W16 := if s.length ≠ 4 then none else (parseHex s).map (BitVec.ofNat 16)
+def w32Hex (w : W32) : String := natToHex w.toNat 8
+def w16Hex (w : W16) : String := natToHex w.toNat 4
+
+def header? (s : String) : Option Header := do
+  let bs ← bytesOfHex s
+  if h : bs.length = 80 then some ⟨bs, h⟩ else none
+
+def rec? : List String → Option (Tri × List String)
+  | a::b::c::d::e::f::g::h::i::j::k::l::m::r => do
+    let a ← w32? a; let b ← w32? b; let c ← w32? c; let d ← w32? d; let e ← w32? e; let f ← w32? f
+    let g ← w32? g; let h ← w32? h; let i ← w32? i; let j ← w32? j; let k ← w32? k; let l ← w32? l
+    let m ← w16? m
+    some (⟨⟨a,b,c⟩,⟨d,e,f⟩,⟨g,h,i⟩,⟨j,k,l⟩,m⟩, r)
+  | _ => none
+
+def recs? : Nat → List String → Option (List Tri × List String)
+  | 0, ts => some ([], ts)
+  | n+1, ts => do let (t, ts) ← rec? ts; let (r, ts) ← recs? n ts; some (t :: r, ts)
+
+/-- `<hdr> n rec…` -/
+def bin? (ts : List String) : Option ((Header × List Tri) × List String) := do
+  match ts with
+  | h :: n :: r =>
+    let h ← header? h; let n ← nat? n
+    let (rs, r) ← recs? n r
+    some ((h, rs), r)
+  | _ => none
+
+def p3Hex (v : P3 W32) : List String := [w32Hex v.x, w32Hex v.y, w32Hex v.z]
+def recHex (t : Tri) : List String := p3Hex t.n ++ p3Hex t.v1 ++ p3Hex t.v2 ++ p3Hex t.v3 ++ [w16Hex t.attr]
+def binHex (h : Header) (ts : List Tri) : String :=
+  " ".intercalate ([hexOfBytes h.bytes, toString ts.length] ++ ts.flatMap recHex)
+
+/-! ### the precision bundle at IEEE doubles; payload = bit pattern with canonical NaN -/
+
+def canon (f : Float) : UInt64 := f.toBits          -- Lean's toBits already maps every NaN to 7ff8…
+def fl (b : UInt64) : Float := Float.ofBits b
+
+def nanCanon32 (w : W32) : W32 := if isNaN32 w then 0x7fc00000#32 else w
+
+/-- the hypothesis `hq` of `stl_mesh_roundtrip` holds for the driver's `q32` -/
+theorem quiet_nanCanon32 (w : W32) : quiet (nanCanon32 w) = nanCanon32 w := by
+  unfold nanCanon32
+  by_cases h : isNaN32 w
+  · rw [if_pos h]; decide
+  · rw [if_neg h]; simp [quiet, h]
+
+def normalized (x y z : Float) : P3 UInt64 :=
+  let len := Float.sqrt (x * x + y * y + z * z)
+  ⟨canon (x / len), canon (y / len), canon (z / len)⟩
+
+def P : Params UInt64 where
+  q32 b := nanCanon32 (BitVec.ofNat 32 (fl b).toFloat32.toBits.toNat)
+  up w := canon (Float32.ofBits (UInt32.ofNat w.toNat)).toFloat
+  avgNormal a b c :=
+    let x := (fl a.x + fl b.x + fl c.x) / 3.0
+    let y := (fl a.y + fl b.y + fl c.y) / 3.0
+    let z := (fl a.z + fl b.z + fl c.z) / 3.0
+    normalized x y z
+  flatNormal v1 v2 v3 :=
+    let ax := fl v2.x - fl v1.x; let ay := fl v2.y - fl v1.y; let az := fl v2.z - fl v1.z
+    let bx := fl v3.x - fl v1.x; let by' := fl v3.y - fl v1.y; let bz := fl v3.z - fl v1.z
+    normalized (ay * bz - az * by') (az * bx - ax * bz) (ax * by' - ay * bx)
+
+def u64? (s : String) : Option UInt64 :=
+  if s.length ≠ 16 then none else (parseHex s).map (fun n => canon (Float.ofBits n.toUInt64))
+
+def vecs? : Nat → List String → Option (List (P3 UInt64) × List String)
+  | 0, ts => some ([], ts)
+  | n+1, a :: b :: c :: ts => do
+    let a ← u64? a; let b ← u64? b; let c ← u64? c
+    let (r, ts) ← vecs? n ts
+    some (⟨a, b, c⟩ :: r, ts)
+  | _, _ => none
+
+def attr? : List String → Option (Option (List (P3 UInt64)) × List String)
+  | "-" :: ts => some (none, ts)
+  | n :: ts => do let n ← nat? n; let (v, ts) ← vecs? n ts; some (some v, ts)
+  | [] => none
+
+def nats? : Nat → List String → Option (List Nat × List String)
+  | 0, ts => some ([], ts)
+  | n+1, a :: ts => do let a ← nat? a; let (r, ts) ← nats? n ts; some (a :: r, ts)
+  | _, _ => none
+
+def mesh? (ts : List String) : Option (Mesh UInt64 × List String) := do
+  match ts with
+  | n :: ts =>
+    let n ← nat? n
+    let (idx, ts) ← nats? n ts
+    let (p, ts) ← attr? ts
+    let (nr, ts) ← attr? ts
+    some (⟨idx, p, nr⟩, ts)
+  | [] => none
+
+def attrHex : Option (List (P3 UInt64)) → List String
+  | none => ["-"]
+  | some vs => toString vs.length :: vs.flatMap fun v => [natToHex v.x.toNat 16, natToHex v.y.toNat 16, natToHex v.z.toNat 16]
+
+def meshHex (m : Mesh UInt64) : String :=
+  " ".intercalate ([toString m.indices.length] ++ m.indices.map toString ++ attrHex m.pos ++ attrHex m.nrm)
+
+def handle (op : String) (args : List String) : Option String := do
+  match op with
+  | "c07.write" =>
+      let ((h, ts), _) ← bin? args
+      pure (hexOfBytes (encode h ts))
+  | "c07.read" =>
+      let bs ← bytesOfHex (← args.head?)
+      match decode bs with
+      | .ok (h, ts) => pure ("ok " ++ binHex h ts)
+      | .error _ => pure "err"
+  | "c07.writemesh" =>
+      let (m, _) ← mesh? args
+      match writeMesh P m with
+      | .ok bs =>
+        match decode bs with
+        | .ok (h, ts) => pure ("ok " ++ binHex h ts)
+        | .error _ => pure "undecodable"
+      | .error _ => pure "panic"
+  | "c07.readmesh" =>
+      let bs ← bytesOfHex (← args.head?)
+      match readMesh P bs with
+      | .ok m => pure ("ok " ++ meshHex m)
+      | .error _ => pure "err"
+  | "c07.holds.size" =>
+      match args with
+      | [n, b] => let n ← nat? n; let bs ← bytesOfHex b; pure (boolStr (bs.length == 84 + 50 * n))
+      | _ => none
+  | "c07.holds.rt" =>
+      let (x, r) ← bin? args
+      let (y, _) ← bin? r
+      let back := match decode (encode x.1 x.2) with
+        | .ok z => decide (z = y)
+        | .error _ => false
+      let exact := x.2.all (fun t => decide (quietTri t = t))
+      pure (boolStr (back && (!exact || decide (x = y))))
+  | "c07.holds.reencode" =>
+      match args with
+      | [i, o] =>
+        let i ← bytesOfHex i; let o ← bytesOfHex o
+        match decodeRaw i, decode i, decode o with
+        | .ok (_, raw), .ok x, .ok y =>
+          let exact := raw.all (fun t => decide (quietTri t = t))
+          pure (boolStr (decide (x = y) && o.length == i.length && (!exact || o == i)))
+        | _, _, _ => pure "false"
+      | _ => none
+  | "c07.holds.roundtrip" =>
+      let (m, r) ← mesh? args
+      let (m', _) ← mesh? r
+      pure (boolStr (RoundTrips P m m'))
+  | _ => none
 
 end Driver.C07
 
